@@ -74,6 +74,16 @@ CHECKS = {
              "missing) is handed to the real translator: it must raise; a returned package is a violation and is kept with the emitted code.",
         design="DESIGN.md section 3 C09", technique="exhaustive enumeration of (host, position, construct) grafts within bounds on the real translator; fail-closed oracle",
         note="Trusted base: the graft generator (mc/lang/graft.py) and its syntactic kind inference; any exception type counts as a refusal."),
+    "C10": dict(
+        text="The declaration space is enumerated on all three backends: all chains j.a().t() with object pointer depth 0-2 x deref_count absent/0/1/2 x terminal "
+             "return types (double undeclared and declared, int, float, bool) used as column, in arithmetic, as method argument, twice, in a Where and as a vector; "
+             "two different deref counts on one type; chains j.a().b().t() over depth x deref x depth x deref (half of the 144 combinations quick, all thorough); "
+             "collection-returning methods (default vector, custom collection by value and by pointer) of float / int / object / object-pointer elements under "
+             "Select, Count, index, First, SelectMany, Sum; tree_type; enums in namespaces of depth 1-2 as compare operand, argument, Where and output. The model "
+             "classes are generated from the very same declaration (real pointers to real storage, one wrapper struct with operator*/operator-> per deref level), so "
+             "g++ judges every '.', '->', '(*x)->' and column type and the run judges values; an undeclared method must give a double column and a logged warning.",
+        design="DESIGN.md section 3 C10", technique="exhaustive enumeration of declared signatures x use sites; generated code compiled and run against model classes generated from the same declarations",
+        note=NOTE_EDM + " Pointer-to-pointer collections are outside the statement ('by value or pointer') and not generated."),
     "C11": dict(
         text="Specifications x call sites, exhaustively over small pools: all 56 ordered pairs of distinct parameter names from a pool chosen to collide with the code's "
              "own identifiers, generated names and the arguments' text (x, y, pt, eta, j, i_obj, result2, obj) x code templates (whole-word uses next to longer identifiers "
